@@ -581,6 +581,22 @@ func (n *node) exec(line string) string {
 	if !n.alive {
 		return "dead"
 	}
+	if ws[0] == "forkput" && len(ws) == 2 {
+		// what groupChainFork does to its own prefixed store "groupFork": same LevelDB, and the
+		// prefix extends the chain's "group", so the chain sees the raw key "Fork"+key
+		k, err := hx.UnHex(ws[1])
+		if err != nil {
+			return "bad-op"
+		}
+		d, err := db.NewDatabase("groupFork")
+		if err != nil {
+			return "PANIC " + err.Error()
+		}
+		if err := d.Put(k, []byte{1}); err != nil {
+			return "PANIC " + err.Error()
+		}
+		return "ok"
+	}
 	if ws[0] == "conc" && len(ws) == 6 {
 		// conc <id1> <id2> <pre> <parent> <create>: two concurrent AddGroup calls naming the same predecessor
 		g1, ok1 := parseGroup4(ws[1], ws[3], ws[4], ws[5])
@@ -1075,6 +1091,10 @@ func (g *gen) malformed() {
 		{"boot 9001,-,9001,0 9101,9001,9001,1", "crash 2 rmlast"},
 		{"boot 9001,-,9001,0 9101,9001,9001,1", "crash 3 rmlast"},
 		{"boot 9001,-,9001,0 9101,9001,9001,1 9201,9101,9001,2 9301,9201,9001,3", "crash 5 rmto 0", "crash 6 rmto 0"},
+		// the fork database shares the chain's key space: fork key X is the chain's raw key "Fork"+X
+		{"boot 9001,-,9001,0", "forkput a1", "dump", "byid 466f726ba1", "add 466f726ba1 9001 9001 1", "add a1 9001 9001 2",
+			"forkput " + hk(2), "dump", "byid 466f726b" + hk(2), "add 466f726b" + hk(2) + " a1 9001 3", "forkput 6c6174657374", "restart", "dump",
+			"add 01 a1 9001 4", "forkput 00000001", "byheight 5075401108956905473", "syncat 5075401108956905473 2", "dump", "forkput zz"},
 		// syntactically bad lines (driver and harness must both say bad-op)
 		{"boot 9001,-,9001,0", "add zz 9001 9001 1", "add a1 9001 9001", "byheight x", "rmto -1", "crash x rmlast", "crash 1 count", "frobnicate", "sync zz", "syncat 1"},
 		{"boot 9001,-,9001"},
